@@ -58,12 +58,12 @@ def _violations(res, spec, obs, viols):
 
 def correspond(res):
     rng = random.Random(res.seed)
-    n_hist = 260 if res.tier == "quick" else 2400
+    n_hist = 260 if res.tier == "quick" else 1800
     cases = []
     for i in range(n_hist):
         mode = MODES[i % len(MODES)]
         spec = D.gen_spec(rng, mode)
-        if res.tier == "quick" and mode == "pct" and i % 30 not in (6, 7):
+        if mode == "pct" and (i % 30 not in (6, 7) if res.tier == "quick" else i % 10 == 7):
             spec["mode"] = mode = "small"
             spec["N0"] = 3
         obs = D.run_engine(spec)
